@@ -1,10 +1,13 @@
 (** WP09, part 4: the theorems of C03 (second half) / C15 (collapse clause) for
-    every tree, every [Num]; lifted to [balance_rows]; the necessity of the
-    "no logged name is a path-prefix of another" hypothesis; examples. *)
+    every tree, every [Num]; lifted to [balance_rows]; what the "no logged name
+    is a path-prefix of another" hypothesis is still needed for after fix
+    3cc3ec3 (joining only while the totals are Go-equal) and what holds
+    without it; examples. *)
 From Coq Require Import Lia ZifyBool ZifyNat ZifyN.
-From HP Require Import Base.Bytes Base.Num Model.Elements Model.Tree Model.Reporters
-  Spec.TreeShared Spec.BalancePrintSpec
+From HP Require Import Base.Bytes Base.Num Base.GoFloat Model.Elements Model.Tree Model.Reporters
+  Spec.TreeShared Spec.BalancePrintSpec Spec.PresentationSpec
   Proofs.BalancePrintBase Proofs.BalancePrintDecode Proofs.BalancePrintModes.
+From HP Require Proofs.PresentationFloatOrder.
 
 Section Theorems.
   Context (NM : Num).
@@ -240,6 +243,370 @@ Section Theorems.
     intros c Hc. unfold dj_child. apply dj_subseq_amounts; [exact Hc|reflexivity].
   Qed.
 
+  (** * Fix 3cc3ec3: joining never hides an amount (every tree, no hypothesis on the totals) *)
+  Notation rdec := (list bytes * list (bytes * T) * T * bool)%type.
+  Notation same := (same_path_go_equal NM).
+
+  Lemma flat_map_map {A B C} (f : B -> list C) (g : A -> B) (l : list A) :
+    flat_map f (map g l) = flat_map (fun a => f (g a)) l.
+  Proof. induction l as [|a l IH]; cbn [map flat_map]; [reflexivity|]. rewrite IH. reflexivity. Qed.
+
+  (** Go's [==] is symmetric by its definition *)
+  Lemma t_eqb_sym (a c : T) : t_eqb NM a c = t_eqb NM c a.
+  Proof.
+    unfold t_eqb. destruct (ltb NM a c), (ltb NM c a), (is_nan NM a), (is_nan NM c); reflexivity.
+  Qed.
+
+  Lemma go_eq_chain_trans :
+    go_eq_transitive NM -> forall y x, go_eq_chain NM y x -> y = x \/ t_eqb NM y x = true.
+  Proof.
+    intros Htr y x H. induction H as [y|y x z _ IH Hz]; [left; reflexivity|]. right.
+    destruct IH as [E|E].
+    - subst x. rewrite t_eqb_sym. exact Hz.
+    - apply (Htr y x z); [exact E|]. rewrite t_eqb_sym. exact Hz.
+  Qed.
+
+  Lemma go_eq_chain_eq : go_eq_is_eq NM -> forall y x, go_eq_chain NM y x -> y = x.
+  Proof.
+    intros Heq y x H. induction H as [y|y x z _ IH Hz]; [reflexivity|].
+    subst x. symmetry. apply Heq, Hz.
+  Qed.
+
+  Lemma go_eq_is_eq_transitive : go_eq_is_eq NM -> go_eq_transitive NM.
+  Proof. intros Heq a c d Hac Hcd. apply Heq in Hac. subst c. exact Hcd. Qed.
+
+  (** from the full read-back of a mode to the statement of the Spec *)
+  Lemma account_of_full (t : tree) (rows : list row) (rds : list rdec) :
+    decode_full_from NM [] rows = map (strip NM) rds ->
+    Forall (rd_ok NM) rds -> flat_map (rd_nodes NM) rds = tree_paths NM t ->
+    rows_account_for NM t rows.
+  Proof.
+    intros Hdec Hok Hnodes.
+    exists (map (fun rd : rdec => let '(pp, chain, y, lf) := rd in (pp, chain, y)) rds).
+    split; [|split].
+    - unfold decode_own. rewrite decode_own_from_full, Hdec, !map_map.
+      apply map_ext. intros [[[pp chain] y] lf]. reflexivity.
+    - apply Forall_map. eapply Forall_impl; [|exact Hok]. intros [[[pp chain] y] lf] H. exact H.
+    - rewrite flat_map_map, <- Hnodes. apply flat_map_ext. intros [[[pp chain] y] lf]. reflexivity.
+  Qed.
+
+  (** in each mode the rows account for the whole tree: every row is an honest
+      joined row (its amount is the total of its first node, every further
+      node's total is Go-equal to its parent's) and the nodes behind the rows
+      are exactly the nodes of the tree, each once, in pre-order *)
+  Theorem plain_accounts (t : tree) :
+    slash_free_below NM t -> rows_account_for NM t (print_node NM false 0 t).
+  Proof.
+    intros Hsf. apply (account_of_full t _ _ (decode_full_plain NM t Hsf)).
+    - apply Forall_flat_map, Forall_forall. intros c _. apply rchild_nodes_ok.
+    - rewrite tree_paths_eq, flat_map_flat_map. apply flat_map_ext. intros c. apply rchild_nodes_paths.
+  Qed.
+
+  Theorem collapse_last_accounts (t : tree) :
+    slash_free_below NM t -> rows_account_for NM t (print_node NM true 0 t).
+  Proof.
+    intros Hsf. apply (account_of_full t _ _ (decode_full_collapse_last NM t Hsf)).
+    - apply Forall_flat_map, Forall_forall. intros c _. apply rcl_child_ok.
+    - rewrite tree_paths_eq, flat_map_flat_map. apply flat_map_ext. intros c. apply rcl_child_paths.
+  Qed.
+
+  Theorem collapsed_accounts (t : tree) :
+    slash_free_below NM t -> rows_account_for NM t (print_collapsed NM t).
+  Proof.
+    intros Hsf. apply (account_of_full t _ _ (decode_full_collapsed NM t Hsf)).
+    - apply Forall_flat_map, Forall_forall. intros c _. apply rdj_child_ok.
+    - rewrite tree_paths_eq, flat_map_flat_map. apply flat_map_ext. intros c. apply rdj_child_paths.
+  Qed.
+
+  Theorem modes_account_for_tree (t : tree) :
+    slash_free_below NM t ->
+    rows_account_for NM t (rows_plain NM t) /\
+    rows_account_for NM t (rows_collapse_last NM t) /\
+    rows_account_for NM t (rows_collapsed NM t).
+  Proof.
+    intros Hsf. split; [|split].
+    - apply plain_accounts, Hsf.
+    - apply collapse_last_accounts, Hsf.
+    - apply collapsed_accounts, Hsf.
+  Qed.
+
+  (** ** a joined row: the totals of the nodes on the joined path *)
+  Lemma eq_from_pairs (r : list (bytes * T)) :
+    go_eq_transitive NM -> forall n x, eq_from NM x r ->
+      ForallOrdPairs (fun a c => t_eqb NM (snd c) (snd a) = true) ((n, x) :: r).
+  Proof.
+    intros Htr. induction r as [|[m z] r IH]; intros n x H.
+    - constructor; constructor.
+    - cbn [eq_from] in H. destruct H as [Hz Hr]. specialize (IH m z Hr).
+      constructor; [|exact IH]. constructor; [exact Hz|].
+      inversion IH as [|a l Hall _]; subst a l.
+      eapply Forall_impl; [|exact Hall]. cbn [snd]. intros e He.
+      apply (Htr (snd e) z x); assumption.
+  Qed.
+
+  Lemma joined_ok_pairwise (y : T) (chain : list (bytes * T)) :
+    go_eq_transitive NM -> joined_ok NM y chain ->
+    ForallOrdPairs (fun a c => t_eqb NM (snd c) (snd a) = true) chain.
+  Proof.
+    intros Htr H. destruct chain as [|[n x] r]; [destruct H|].
+    destruct H as [_ H]. apply eq_from_pairs; assumption.
+  Qed.
+
+  Lemma account_rows_joined (t : tree) (rows : list row) :
+    rows_account_for NM t rows ->
+    forall pp own y, In (pp, own, y) (decode_own NM rows) ->
+      exists chain : list (bytes * T),
+        map fst chain = own /\ joined_ok NM y chain /\
+        incl (chain_paths NM pp chain) (tree_paths NM t) /\
+        (go_eq_transitive NM -> ForallOrdPairs (fun a c => t_eqb NM (snd c) (snd a) = true) chain).
+  Proof.
+    intros [rds [Hdec [Hok Hnodes]]] pp own y Hin.
+    rewrite <- Hdec in Hin. apply in_map_iff in Hin. destruct Hin as [[[pp' chain] y'] [E Hrd]].
+    inversion E; subst pp' own y'. exists chain.
+    rewrite Forall_forall in Hok. specialize (Hok _ Hrd). cbn beta iota in Hok.
+    split; [reflexivity|]. split; [exact Hok|]. split.
+    - intros e He. rewrite <- Hnodes. apply in_flat_map. exists (pp, chain, y). split; assumption.
+    - intros Htr. apply (joined_ok_pairwise y); assumption.
+  Qed.
+
+  (** every row printed in collapse-last or collapsed mode, in particular one
+      whose label joins several segments, stands for a chain of nodes of the
+      tree (parent, only child, ...) in which every total is Go-equal to the
+      one before; the amount shown is the total of the first; when [==] is
+      transitive (float64, exact numbers) all totals of the chain are pairwise
+      Go-equal: no amount is hidden by joining *)
+  Theorem collapse_joins_equal_totals (t : tree) :
+    slash_free_below NM t ->
+    forall rows, rows = print_node NM true 0 t \/ rows = print_collapsed NM t ->
+    forall pp own y, In (pp, own, y) (decode_own NM rows) ->
+      exists chain : list (bytes * T),
+        map fst chain = own /\ joined_ok NM y chain /\
+        incl (chain_paths NM pp chain) (tree_paths NM t) /\
+        (go_eq_transitive NM -> ForallOrdPairs (fun a c => t_eqb NM (snd c) (snd a) = true) chain).
+  Proof.
+    intros Hsf rows [E|E]; subst rows; apply account_rows_joined.
+    - apply collapse_last_accounts, Hsf.
+    - apply collapsed_accounts, Hsf.
+  Qed.
+
+  (** ** every node's (path, total) can be read from the rows of every mode *)
+  Definition rd_shown (rd : rdec) : list (list bytes * T) :=
+    let '(pp, chain, y, lf) := rd in map (fun o => (pp ++ o, y)) (prefixes (map fst chain)).
+
+  Lemma shown_of_full (rows : list row) (rds : list rdec) :
+    decode_full_from NM [] rows = map (strip NM) rds ->
+    shown_paths NM rows = flat_map rd_shown rds.
+  Proof.
+    intros Hdec. unfold shown_paths, decode_own.
+    rewrite decode_own_from_full, Hdec, map_map, flat_map_map.
+    apply flat_map_ext. intros [[[pp chain] y] lf]. reflexivity.
+  Qed.
+
+  Lemma chain_shown (chain : list (bytes * T)) :
+    forall pp y x0, go_eq_chain NM y x0 -> eq_from NM x0 chain ->
+      Forall2 same (map (fun o => (pp ++ o, y)) (prefixes (map fst chain))) (chain_paths NM pp chain).
+  Proof.
+    induction chain as [|[n z] r IH]; intros pp y x0 Hy H; [constructor|].
+    cbn [eq_from] in H. destruct H as [Hz Hr].
+    cbn [map fst prefixes chain_paths]. constructor.
+    - split; [reflexivity|]. cbn [snd]. eapply gec_step; [exact Hy|exact Hz].
+    - rewrite map_map.
+      rewrite (map_ext _ (fun o => ((pp ++ [n]) ++ o, y))).
+      + apply (IH (pp ++ [n]) y z); [|exact Hr]. eapply gec_step; [exact Hy|exact Hz].
+      + intros o. rewrite <- app_assoc. reflexivity.
+  Qed.
+
+  Lemma joined_shown (pp : list bytes) (chain : list (bytes * T)) (y : T) :
+    joined_ok NM y chain ->
+    Forall2 same (map (fun o => (pp ++ o, y)) (prefixes (map fst chain))) (chain_paths NM pp chain).
+  Proof.
+    destruct chain as [|[n x] r]; intros H; [destruct H|]. destruct H as [E Hr]. subst x.
+    cbn [map fst prefixes chain_paths]. constructor.
+    - split; [reflexivity|apply gec_refl].
+    - rewrite map_map.
+      rewrite (map_ext _ (fun o => ((pp ++ [n]) ++ o, y))).
+      + apply (chain_shown r (pp ++ [n]) y y); [apply gec_refl|exact Hr].
+      + intros o. rewrite <- app_assoc. reflexivity.
+  Qed.
+
+  Theorem shown_of_account (t : tree) (rows : list row) :
+    rows_account_for NM t rows -> Forall2 same (shown_paths NM rows) (tree_paths NM t).
+  Proof.
+    intros [rds [Hdec [Hok Hnodes]]]. unfold shown_paths. rewrite <- Hdec, <- Hnodes, flat_map_map.
+    apply Forall2_flat_map. eapply Forall_impl; [|exact Hok].
+    intros [[pp chain] y] H. apply joined_shown, H.
+  Qed.
+
+  Lemma Forall2_In_r {A B} (R : A -> B -> Prop) (l : list A) (m : list B) (y : B) :
+    Forall2 R l m -> In y m -> exists x, In x l /\ R x y.
+  Proof.
+    induction 1 as [|a c l m Hac _ IH]; intros Hin; [destruct Hin|].
+    destruct Hin as [E|Hin].
+    - subst c. exists a. split; [left; reflexivity|exact Hac].
+    - destruct (IH Hin) as [x [Hx HR]]. exists x. split; [right; exact Hx|exact HR].
+  Qed.
+
+  Lemma Forall2_In_l {A B} (R : A -> B -> Prop) (l : list A) (m : list B) (x : A) :
+    Forall2 R l m -> In x l -> exists y, In y m /\ R x y.
+  Proof.
+    induction 1 as [|a c l m Hac _ IH]; intros Hin; [destruct Hin|].
+    destruct Hin as [E|Hin].
+    - subst a. exists c. split; [left; reflexivity|exact Hac].
+    - destruct (IH Hin) as [y [Hy HR]]. exists y. split; [right; exact Hy|exact HR].
+  Qed.
+
+  (** [shown_paths rows] = every category path the reader sees, once, with the
+      amount of the row in which its last segment is printed.  In plain mode
+      that IS the list of the nodes of the tree; in the two collapsing modes it
+      is that list up to Go-equality of the amounts: same paths, same order,
+      each amount linked to the node's total by a chain of [==] *)
+  Theorem modes_show_every_path_total (t : tree) :
+    slash_free_below NM t ->
+    shown_paths NM (rows_plain NM t) = tree_paths NM t /\
+    Forall2 same (shown_paths NM (rows_collapse_last NM t)) (tree_paths NM t) /\
+    Forall2 same (shown_paths NM (rows_collapsed NM t)) (tree_paths NM t).
+  Proof.
+    intros Hsf. split; [|split].
+    - unfold rows_plain. rewrite (shown_of_full _ _ (decode_full_plain NM t Hsf)).
+      rewrite tree_paths_eq, flat_map_flat_map. apply flat_map_ext. intros c.
+      rewrite <- rchild_nodes_paths. apply flat_map_ext_Forall.
+      eapply Forall_impl; [|apply rchild_nodes_single].
+      intros [[[pp chain] y] lf] [n E]. subst chain. reflexivity.
+    - apply shown_of_account, collapse_last_accounts, Hsf.
+    - apply shown_of_account, collapsed_accounts, Hsf.
+  Qed.
+
+  (** the same, node by node: every node of the tree is shown in every mode, in
+      the row in which its last segment is printed, with an amount equal (the
+      node starts the row) or Go-equal (the node was joined to its parent's
+      row) to its total - when [==] is transitive *)
+  Theorem every_node_total_shown (t : tree) :
+    slash_free_below NM t -> go_eq_transitive NM ->
+    forall rows, rows = print_node NM false 0 t \/ rows = print_node NM true 0 t \/ rows = print_collapsed NM t ->
+    forall p x, In (p, x) (tree_paths NM t) ->
+      exists y, In (p, y) (shown_paths NM rows) /\ (y = x \/ t_eqb NM y x = true).
+  Proof.
+    intros Hsf Htr rows Hrows p x Hp.
+    assert (H : Forall2 same (shown_paths NM rows) (tree_paths NM t)).
+    { destruct Hrows as [E|[E|E]]; subst rows; apply shown_of_account.
+      - apply plain_accounts, Hsf.
+      - apply collapse_last_accounts, Hsf.
+      - apply collapsed_accounts, Hsf. }
+    destruct (Forall2_In_r _ _ _ _ H Hp) as [[q y] [Hq [Hpath Hamt]]].
+    cbn [fst snd] in Hpath, Hamt. subst q. exists y. split; [exact Hq|].
+    apply go_eq_chain_trans; assumption.
+  Qed.
+
+  (** ** every ROW carries an amount Go-equal-linked to the total of the node its full path names *)
+  Lemma split_on_ne (c : N) (s0 : bytes) : split_on c s0 <> [].
+  Proof.
+    induction s0 as [|a r IH]; cbn [split_on]; [discriminate|].
+    destruct (N.eqb a c); [discriminate|]. destruct (split_on c r); [congruence|discriminate].
+  Qed.
+
+  Lemma decode_in_own_from (rows : list row) :
+    forall st p y lf, In (p, y, lf) (decode_from NM st rows) ->
+      exists pp own, p = pp ++ own /\ own <> [] /\ In (pp, own, y) (decode_own_from NM st rows).
+  Proof.
+    induction rows as [|[[x lvl] lab] rest IH]; intros st p y lf Hin; [destruct Hin|].
+    cbn [decode_from decode_own_from] in *. destruct Hin as [E|Hin].
+    - inversion E; subst p y lf. eexists _, _. split; [reflexivity|]. split; [apply split_on_ne|].
+      left. reflexivity.
+    - destruct (IH _ _ _ _ Hin) as [pp [own [E [Hne Ho]]]]. exists pp, own.
+      split; [exact E|]. split; [exact Hne|]. right. exact Ho.
+  Qed.
+
+  Lemma decode_in_shown (rows : list row) p y lf :
+    In (p, y, lf) (decode NM rows) -> In (p, y) (shown_paths NM rows).
+  Proof.
+    intros Hin. destruct (decode_in_own_from rows [] p y lf Hin) as [pp [own [E [Hne Ho]]]]. subst p.
+    unfold shown_paths. apply in_flat_map. exists (pp, own, y). split; [exact Ho|].
+    apply in_map_iff. exists own. split; [reflexivity|].
+    rewrite <- (app_nil_r own) at 2. apply In_prefixes, Hne.
+  Qed.
+
+  (** [collapse_last_rows_are_nodes] / [collapsed_rows_are_nodes] without
+      [chain_const_below], up to Go-equality of the amount *)
+  Theorem rows_are_nodes_go_equal (t : tree) :
+    slash_free_below NM t ->
+    forall rows, rows = print_node NM false 0 t \/ rows = print_node NM true 0 t \/ rows = print_collapsed NM t ->
+    forall p y lf, In (p, y, lf) (decode NM rows) ->
+      exists x, In (p, x) (tree_paths NM t) /\ go_eq_chain NM y x.
+  Proof.
+    intros Hsf rows Hrows p y lf Hin. apply decode_in_shown in Hin.
+    assert (H : Forall2 same (shown_paths NM rows) (tree_paths NM t)).
+    { destruct Hrows as [E|[E|E]]; subst rows; apply shown_of_account.
+      - apply plain_accounts, Hsf.
+      - apply collapse_last_accounts, Hsf.
+      - apply collapsed_accounts, Hsf. }
+    destruct (Forall2_In_l _ _ _ _ H Hin) as [[q x] [Hq [Hpath Hamt]]].
+    cbn [fst snd] in Hpath, Hamt. subst q. exists x. split; assumption.
+  Qed.
+
+  (** ** the leaves without any hypothesis on the totals *)
+  Theorem collapse_last_leaves_go_equal (t : tree) :
+    slash_free_below NM t ->
+    Forall2 same (leaf_rows NM (print_node NM true 0 t)) (tree_leaves NM t).
+  Proof.
+    intros Hsf. rewrite leaf_rows_eq, decode_collapse_last by assumption.
+    rewrite cl_nodes_children, tree_leaves_eq, flat_map_flat_map.
+    apply Forall2_flat_map, Forall_forall. intros c _. apply cl_child_leaves_go.
+  Qed.
+
+  Theorem collapsed_leaves_go_equal (t : tree) :
+    slash_free_below NM t ->
+    Forall2 same (leaf_rows NM (print_collapsed NM t)) (tree_leaves NM t).
+  Proof.
+    intros Hsf. rewrite leaf_rows_eq, decode_collapsed by assumption.
+    rewrite tree_leaves_eq, flat_map_flat_map.
+    apply Forall2_flat_map, Forall_forall. intros c _. unfold dj_child.
+    apply dj_leaves_go, gec_refl.
+  Qed.
+
+  Lemma same_eq (l m : list (list bytes * T)) : go_eq_is_eq NM -> Forall2 same l m -> l = m.
+  Proof.
+    intros Heq H. induction H as [|[p y] [q x] l m [Hp Hx] _ IH]; [reflexivity|].
+    cbn [fst snd] in Hp, Hx. subst q. rewrite (go_eq_chain_eq Heq y x Hx), IH. reflexivity.
+  Qed.
+
+  (** where Go-equal amounts are equal ([ZNum]; not float64: [-0 == +0]) the
+      hypothesis "no logged name is a path-prefix of another" is no longer
+      needed for the leaves *)
+  Theorem collapse_last_leaves_exact (t : tree) :
+    go_eq_is_eq NM -> slash_free_below NM t ->
+    leaf_rows NM (print_node NM true 0 t) = tree_leaves NM t.
+  Proof. intros Heq Hsf. apply same_eq; [exact Heq|]. apply collapse_last_leaves_go_equal, Hsf. Qed.
+
+  Theorem collapsed_leaves_exact (t : tree) :
+    go_eq_is_eq NM -> slash_free_below NM t ->
+    leaf_rows NM (print_collapsed NM t) = tree_leaves NM t.
+  Proof. intros Heq Hsf. apply same_eq; [exact Heq|]. apply collapsed_leaves_go_equal, Hsf. Qed.
+
+  Theorem modes_agree_exact (t : tree) :
+    go_eq_is_eq NM -> slash_free_below NM t ->
+    leaf_rows NM (rows_plain NM t) = tree_leaves NM t /\
+    leaf_rows NM (rows_collapse_last NM t) = leaf_rows NM (rows_plain NM t) /\
+    leaf_rows NM (rows_collapsed NM t) = leaf_rows NM (rows_plain NM t).
+  Proof.
+    intros Heq Hsf. unfold rows_plain, rows_collapse_last, rows_collapsed.
+    rewrite plain_leaves, collapse_last_leaves_exact, collapsed_leaves_exact by assumption.
+    repeat split.
+  Qed.
+
+  (** without any law: the three modes show the same leaf paths, the amounts
+      of the two collapsing modes are linked to the plain ones by Go-equalities *)
+  Theorem modes_agree_go_equal (t : tree) :
+    slash_free_below NM t ->
+    leaf_rows NM (rows_plain NM t) = tree_leaves NM t /\
+    Forall2 same (leaf_rows NM (rows_collapse_last NM t)) (leaf_rows NM (rows_plain NM t)) /\
+    Forall2 same (leaf_rows NM (rows_collapsed NM t)) (leaf_rows NM (rows_plain NM t)).
+  Proof.
+    intros Hsf. unfold rows_plain, rows_collapse_last, rows_collapsed.
+    rewrite plain_leaves by assumption. split; [reflexivity|]. split.
+    - apply collapse_last_leaves_go_equal, Hsf.
+    - apply collapsed_leaves_go_equal, Hsf.
+  Qed.
+
   (** * Lifted to the reporter: [balance_rows] on the ordered tree *)
   Lemma balance_rows_eq (pi : list bytes -> list bytes) (collapse cl : bool) (root : tree) :
     balance_rows NM pi collapse cl root =
@@ -281,6 +648,44 @@ Section Theorems.
     intros Hsf p x Hp. rewrite balance_rows_eq.
     destruct (never_drops_branch _ Hsf p x Hp) as [H1 [H2 H3]].
     destruct collapse; [|destruct cl]; assumption.
+  Qed.
+
+  (** ... and in every mode the rows account for the whole ordered tree, every
+      node's total can be read from the rows (no hypothesis on the totals) *)
+  Theorem balance_rows_account (pi : list bytes -> list bytes) (collapse cl : bool) (root : tree) :
+    slash_free_below NM (order_tree NM pi root) ->
+    rows_account_for NM (order_tree NM pi root) (balance_rows NM pi collapse cl root).
+  Proof.
+    intros Hsf. rewrite balance_rows_eq.
+    destruct (modes_account_for_tree _ Hsf) as [H1 [H2 H3]].
+    destruct collapse; [|destruct cl]; assumption.
+  Qed.
+
+  Theorem balance_rows_show_every_total (pi : list bytes -> list bytes) (collapse cl : bool) (root : tree) :
+    slash_free_below NM (order_tree NM pi root) ->
+    Forall2 same (shown_paths NM (balance_rows NM pi collapse cl root))
+            (tree_paths NM (order_tree NM pi root)).
+  Proof. intros Hsf. apply shown_of_account, balance_rows_account, Hsf. Qed.
+
+  Theorem balance_rows_leaves_go_equal (pi : list bytes -> list bytes) (collapse cl : bool) (root : tree) :
+    slash_free_below NM (order_tree NM pi root) ->
+    Forall2 same (leaf_rows NM (balance_rows NM pi collapse cl root))
+            (tree_leaves NM (order_tree NM pi root)).
+  Proof.
+    intros Hsf. rewrite balance_rows_eq.
+    destruct collapse; [|destruct cl].
+    - apply collapsed_leaves_go_equal, Hsf.
+    - apply collapse_last_leaves_go_equal, Hsf.
+    - unfold rows_plain. rewrite plain_leaves by assumption.
+      clear. induction (tree_leaves NM (order_tree NM pi root)) as [|a l IH]; constructor;
+        [split; [reflexivity|apply gec_refl]|exact IH].
+  Qed.
+
+  Theorem balance_rows_leaves_exact (pi : list bytes -> list bytes) (collapse cl : bool) (root : tree) :
+    go_eq_is_eq NM -> slash_free_below NM (order_tree NM pi root) ->
+    leaf_rows NM (balance_rows NM pi collapse cl root) = tree_leaves NM (order_tree NM pi root).
+  Proof.
+    intros Heq Hsf. apply same_eq; [exact Heq|]. apply balance_rows_leaves_go_equal, Hsf.
   Qed.
 
   Theorem balance_rows_only_joins (pi : list bytes -> list bytes) (collapse cl : bool) (root : tree) :
@@ -391,9 +796,48 @@ Example ex2_modes_equal :
   leaf_rows ZNum (rows_collapse_last ZNum ex_tree2) = leaf_rows ZNum (rows_collapsed ZNum ex_tree2).
 Proof. vm_compute. repeat split. Qed.
 
-(** * The hypothesis is necessary: a logged name that IS a path-prefix of another
+(** * The laws of Go's [==] at the two instances *)
 
-    entries [a:1, a/b:2]: node [a] has total 3 and the sole child [b] with total 2 *)
+(** exact numbers: Go-equal amounts are equal *)
+Lemma ZNum_go_eq_is_eq : go_eq_is_eq ZNum.
+Proof.
+  intros a c H. unfold t_eqb in H. cbn [ltb is_nan ZNum] in H.
+  destruct (Z.ltb_spec a c), (Z.ltb_spec c a); cbn in H; try discriminate H. lia.
+Qed.
+
+Lemma ZNum_go_eq_transitive : go_eq_transitive ZNum.
+Proof. apply go_eq_is_eq_transitive, ZNum_go_eq_is_eq. Qed.
+
+(** float64 (what the program computes in): [==] is transitive ... *)
+Lemma B64_go_eq_transitive : go_eq_transitive B64.
+Proof.
+  intros a c d Hac Hcd. unfold t_eqb in *.
+  destruct (ltb B64 a c) eqn:L1; [discriminate Hac|].
+  destruct (ltb B64 c a) eqn:L2; [discriminate Hac|].
+  destruct (is_nan B64 a) eqn:Na; [discriminate Hac|].
+  destruct (is_nan B64 c) eqn:Nc; [discriminate Hac|].
+  destruct (ltb B64 c d) eqn:L3; [discriminate Hcd|].
+  destruct (ltb B64 d c) eqn:L4; [discriminate Hcd|].
+  destruct (is_nan B64 d) eqn:Nd; [cbn in Hcd; discriminate Hcd|].
+  pose proof PresentationFloatOrder.B64_weak_order as W.
+  rewrite (lwo_incomp B64 _ W a c d Na Nc Nd L1 L2 L3 L4).
+  rewrite (lwo_incomp B64 _ W d c a Nd Nc Na L4 L3 L2 L1).
+  reflexivity.
+Qed.
+
+(** ... but Go-equal amounts need not be equal: [-0 == +0] *)
+Example B64_go_eq_is_not_eq : ~ go_eq_is_eq B64.
+Proof.
+  intros H. specialize (H (f_of_Z 0) (mul B64 (neg_one B64) (f_of_Z 0))).
+  assert (E : t_eqb B64 (f_of_Z 0) (mul B64 (neg_one B64) (f_of_Z 0)) = true) by (vm_compute; reflexivity).
+  specialize (H E). vm_compute in H. discriminate H.
+Qed.
+
+(** * A logged name that IS a path-prefix of another, after fix 3cc3ec3
+
+    entries [a:1, a/b:2]: node [a] has total 3 and the sole child [b] with
+    total 2.  Before the fix the two collapsing modes printed the single row
+    [3 | a/b]; now the chain ends at [a], which gets its own row. *)
 Definition bad_tree : tree ZNum :=
   order_tree ZNum (fun l => l)
     (tree_add_all ZNum (empty_root ZNum) [(b "a", 1%Z); (b "a/b", 2%Z)]).
@@ -401,6 +845,7 @@ Definition bad_tree : tree ZNum :=
 Example bad_tree_value : bad_tree = ZN [] 0%Z [ZN (b "a") 3%Z [ZN (b "b") 2%Z []]].
 Proof. vm_compute. reflexivity. Qed.
 
+(** the tree is not [chain_const_below] (so the theorems with that hypothesis do not apply) ... *)
 Example prefix_name_breaks_chain_const :
   slash_free_below ZNum bad_tree /\ wf_tree ZNum bad_tree /\ ~ chain_const_below ZNum bad_tree.
 Proof.
@@ -416,36 +861,144 @@ Proof.
     destruct Hc as [Hc _]. discriminate Hc.
 Qed.
 
-(** collapsed (and collapse-last) mode print the leaf [a/b] with amount 3, plain mode with 2 *)
-Example collapsed_leaves_refuted :
+(** ... and yet all three modes now print the same two rows and show the leaf
+    [a/b] with 2 (replaces [collapsed_leaves_refuted], which recorded the
+    amounts 2 / 3 / 3 of the program before the fix) *)
+Example bad_tree_rows_after_fix :
+  rows_plain ZNum bad_tree = [(3%Z, 0%nat, b "a"); (2%Z, 1%nat, b "b")] /\
+  rows_collapsed ZNum bad_tree = rows_plain ZNum bad_tree /\
+  rows_collapse_last ZNum bad_tree = rows_plain ZNum bad_tree.
+Proof. vm_compute. repeat split. Qed.
+
+Example bad_tree_modes_agree_after_fix :
   leaf_rows ZNum (rows_plain ZNum bad_tree) = [([b "a"; b "b"], 2%Z)] /\
-  leaf_rows ZNum (rows_collapsed ZNum bad_tree) = [([b "a"; b "b"], 3%Z)] /\
-  leaf_rows ZNum (rows_collapse_last ZNum bad_tree) = [([b "a"; b "b"], 3%Z)] /\
-  leaf_rows ZNum (rows_collapsed ZNum bad_tree) <> tree_leaves ZNum bad_tree /\
-  leaf_rows ZNum (rows_collapse_last ZNum bad_tree) <> tree_leaves ZNum bad_tree /\
-  leaf_rows ZNum (rows_collapsed ZNum bad_tree) <> leaf_rows ZNum (rows_plain ZNum bad_tree).
+  leaf_rows ZNum (rows_collapsed ZNum bad_tree) = [([b "a"; b "b"], 2%Z)] /\
+  leaf_rows ZNum (rows_collapse_last ZNum bad_tree) = [([b "a"; b "b"], 2%Z)] /\
+  leaf_rows ZNum (rows_collapsed ZNum bad_tree) = tree_leaves ZNum bad_tree /\
+  leaf_rows ZNum (rows_collapse_last ZNum bad_tree) = tree_leaves ZNum bad_tree.
+Proof. vm_compute. repeat split. Qed.
+
+(** the same through the general theorem, which does not ask for [chain_const_below] *)
+Example bad_tree_modes_agree_by_theorem :
+  leaf_rows ZNum (rows_collapsed ZNum bad_tree) = leaf_rows ZNum (rows_plain ZNum bad_tree).
 Proof.
-  vm_compute. repeat split; intros H; discriminate H.
+  destruct prefix_name_breaks_chain_const as [Hsf _].
+  exact (proj2 (proj2 (modes_agree_exact ZNum bad_tree ZNum_go_eq_is_eq Hsf))).
 Qed.
 
-(** so the theorems without [chain_const_below] are false *)
-Theorem collapsed_leaves_without_hypothesis_refuted :
-  ~ (forall t : tree ZNum, slash_free_below ZNum t ->
-       leaf_rows ZNum (print_collapsed ZNum t) = tree_leaves ZNum t).
-Proof.
-  intros H. destruct prefix_name_breaks_chain_const as [Hsf _].
-  specialize (H bad_tree Hsf). revert H. vm_compute. intros H. discriminate H.
-Qed.
+(** so at exact numbers the theorems hold WITHOUT [chain_const_below] (these
+    replace [collapsed_leaves_without_hypothesis_refuted] and
+    [collapse_last_leaves_without_hypothesis_refuted], which are false of the
+    repaired program) *)
+Theorem collapsed_leaves_without_hypothesis :
+  forall t : tree ZNum, slash_free_below ZNum t ->
+    leaf_rows ZNum (print_collapsed ZNum t) = tree_leaves ZNum t.
+Proof. intros t Hsf. apply collapsed_leaves_exact; [exact ZNum_go_eq_is_eq|exact Hsf]. Qed.
 
-Theorem collapse_last_leaves_without_hypothesis_refuted :
-  ~ (forall t : tree ZNum, slash_free_below ZNum t ->
-       leaf_rows ZNum (print_node ZNum true 0 t) = tree_leaves ZNum t).
-Proof.
-  intros H. destruct prefix_name_breaks_chain_const as [Hsf _].
-  specialize (H bad_tree Hsf). revert H. vm_compute. intros H. discriminate H.
-Qed.
+Theorem collapse_last_leaves_without_hypothesis :
+  forall t : tree ZNum, slash_free_below ZNum t ->
+    leaf_rows ZNum (print_node ZNum true 0 t) = tree_leaves ZNum t.
+Proof. intros t Hsf. apply collapse_last_leaves_exact; [exact ZNum_go_eq_is_eq|exact Hsf]. Qed.
 
-(** the paths are still all there *)
+(** the paths are all there ([a] is a prefix of both rows' full paths) *)
 Example bad_tree_paths_kept :
-  all_paths ZNum (rows_collapsed ZNum bad_tree) = [[b "a"]; [b "a"; b "b"]].
+  all_paths ZNum (rows_collapsed ZNum bad_tree) = [[b "a"]; [b "a"]; [b "a"; b "b"]] /\
+  shown_paths ZNum (rows_collapsed ZNum bad_tree) = [([b "a"], 3%Z); ([b "a"; b "b"], 2%Z)].
+Proof. vm_compute. split; reflexivity. Qed.
+
+(** at float64 the exact statement still needs the hypothesis, but only for the
+    sign of a zero: entries [a:0, a/b:-0] give [a] the total [+0] and [b] the
+    total [-0]; [-0 == +0], so the chain is joined and the row of the leaf
+    [a/b] shows [+0] where plain mode shows [-0] *)
+Definition b64_zero : T B64 := f_of_Z 0.
+Definition b64_neg_zero : T B64 := mul B64 (neg_one B64) (f_of_Z 0).
+Definition signed_zero_tree : tree B64 :=
+  order_tree B64 (fun l => l)
+    (tree_add_all B64 (empty_root B64) [(b "a", b64_zero); (b "a/b", b64_neg_zero)]).
+
+Example collapsed_leaves_without_hypothesis_refuted_b64 :
+  leaf_rows B64 (rows_plain B64 signed_zero_tree) = [([b "a"; b "b"], b64_neg_zero)] /\
+  leaf_rows B64 (rows_collapsed B64 signed_zero_tree) = [([b "a"; b "b"], b64_zero)] /\
+  leaf_rows B64 (rows_collapse_last B64 signed_zero_tree) = [([b "a"; b "b"], b64_zero)] /\
+  b64_zero <> b64_neg_zero /\ t_eqb B64 b64_neg_zero b64_zero = true.
+Proof. vm_compute. repeat split. intros H. discriminate H. Qed.
+
+(** * The example of fix 3cc3ec3: categories with entries of their own
+
+    log [coffee 1, coffee/latte/large 2, tea/green/cup 4, milk 1, milk/whole 2] *)
+Definition fix_log : list (bytes * Z) :=
+  [(b "coffee", 1%Z); (b "coffee/latte/large", 2%Z); (b "tea/green/cup", 4%Z);
+   (b "milk", 1%Z); (b "milk/whole", 2%Z)].
+Definition fix_tree : tree ZNum :=
+  order_tree ZNum (fun l => l) (tree_add_all ZNum (empty_root ZNum) fix_log).
+
+Example fix_tree_value :
+  fix_tree = ZN [] 0%Z
+               [ZN (b "coffee") 3%Z [ZN (b "latte") 2%Z [ZN (b "large") 2%Z []]];
+                ZN (b "milk") 3%Z [ZN (b "whole") 2%Z []];
+                ZN (b "tea") 4%Z [ZN (b "green") 4%Z [ZN (b "cup") 4%Z []]]].
 Proof. vm_compute. reflexivity. Qed.
+
+Example fix_rows_plain :
+  rows_plain ZNum fix_tree =
+  [(3%Z, 0%nat, b "coffee"); (2%Z, 1%nat, b "latte"); (2%Z, 2%nat, b "large");
+   (3%Z, 0%nat, b "milk"); (2%Z, 1%nat, b "whole");
+   (4%Z, 0%nat, b "tea"); (4%Z, 1%nat, b "green"); (4%Z, 2%nat, b "cup")].
+Proof. vm_compute. reflexivity. Qed.
+
+(** [coffee] and [milk] have entries of their own: they keep their row, the
+    sub-category is printed below with ITS amount; [tea/green/cup] is one chain *)
+Example fix_rows_collapsed :
+  rows_collapsed ZNum fix_tree =
+  [(3%Z, 0%nat, b "coffee"); (2%Z, 1%nat, b "latte/large");
+   (3%Z, 0%nat, b "milk"); (2%Z, 1%nat, b "whole");
+   (4%Z, 0%nat, b "tea/green/cup")].
+Proof. vm_compute. reflexivity. Qed.
+
+Example fix_rows_collapse_last :
+  rows_collapse_last ZNum fix_tree =
+  [(3%Z, 0%nat, b "coffee"); (2%Z, 1%nat, b "latte/large");
+   (3%Z, 0%nat, b "milk"); (2%Z, 1%nat, b "whole");
+   (4%Z, 0%nat, b "tea"); (4%Z, 1%nat, b "green/cup")].
+Proof. vm_compute. reflexivity. Qed.
+
+(** every node's total is readable from the collapsed output: the visible
+    paths with the amount of their row are exactly the nodes of the tree *)
+Example fix_shown_collapsed :
+  shown_paths ZNum (rows_collapsed ZNum fix_tree) =
+  [([b "coffee"], 3%Z); ([b "coffee"; b "latte"], 2%Z); ([b "coffee"; b "latte"; b "large"], 2%Z);
+   ([b "milk"], 3%Z); ([b "milk"; b "whole"], 2%Z);
+   ([b "tea"], 4%Z); ([b "tea"; b "green"], 4%Z); ([b "tea"; b "green"; b "cup"], 4%Z)] /\
+  shown_paths ZNum (rows_collapsed ZNum fix_tree) = tree_paths ZNum fix_tree /\
+  shown_paths ZNum (rows_collapse_last ZNum fix_tree) = tree_paths ZNum fix_tree.
+Proof. vm_compute. repeat split. Qed.
+
+Example fix_tree_slash_free : slash_free_below ZNum fix_tree.
+Proof.
+  rewrite fix_tree_value. unfold slash_free_below. cbn [t_children].
+  repeat (constructor; cbn [slash_free]);
+    repeat split; try (intros H; cbn in H; repeat (destruct H as [H|H]; [discriminate H|]); exact H).
+Qed.
+
+(** the same through the general theorems (hypothesis met, mechanism exercised):
+    the joined row [4 | tea/green/cup] stands for three nodes with equal totals *)
+Example fix_joined_row_by_theorem :
+  exists chain : list (bytes * Z),
+    map fst chain = [b "tea"; b "green"; b "cup"] /\ joined_ok ZNum 4%Z chain /\
+    incl (chain_paths ZNum [] chain) (tree_paths ZNum fix_tree).
+Proof.
+  destruct (collapse_joins_equal_totals ZNum fix_tree fix_tree_slash_free
+              (print_collapsed ZNum fix_tree) (or_intror eq_refl)
+              [] [b "tea"; b "green"; b "cup"] 4%Z) as [chain [H1 [H2 [H3 _]]]].
+  - vm_compute. tauto.
+  - exists chain. repeat split; assumption.
+Qed.
+
+Example fix_node_shown_by_theorem :
+  exists y, In ([b "coffee"; b "latte"], y) (shown_paths ZNum (print_collapsed ZNum fix_tree)) /\
+            (y = 2%Z \/ t_eqb ZNum y 2%Z = true).
+Proof.
+  apply (every_node_total_shown ZNum fix_tree fix_tree_slash_free ZNum_go_eq_transitive).
+  - right. right. reflexivity.
+  - vm_compute. tauto.
+Qed.
